@@ -11,6 +11,7 @@ from typing import (
     Callable,
     Dict,
     Generic,
+    List,
     Mapping,
     Optional,
     Type,
@@ -113,6 +114,7 @@ class Runtime:
     ) -> None:
         self.handlers = {**_DEFAULT_HANDLERS, **(handlers or {})}
         self.previous = None
+        self._entered: Dict[threading.Thread, List[Optional["Runtime"]]] = {}
 
     def handle(
         self,
@@ -186,13 +188,26 @@ class Runtime:
 
     def __enter__(self):
         with lock:
-            self.previous = _RUNTIMES.get(threading.current_thread())
-            _RUNTIMES[threading.current_thread()] = self
+            thread = threading.current_thread()
+            self.previous = _RUNTIMES.get(thread)
+            # one entry per (thread, nesting level): the same runtime object may be
+            # entered again while active, and by several threads at once
+            self._entered.setdefault(thread, []).append(self.previous)
+            _RUNTIMES[thread] = self
             return self
 
     def __exit__(self, exc_type, exc_value, traceback):
         with lock:
-            _RUNTIMES[threading.current_thread()] = self.previous
+            thread = threading.current_thread()
+            entered = self._entered.get(thread)
+            previous = entered.pop() if entered else self.previous
+            if not entered:
+                self._entered.pop(thread, None)
+            if previous is None:
+                # the thread had no runtime before the block: leave it without one
+                _RUNTIMES.pop(thread, None)
+            else:
+                _RUNTIMES[thread] = previous
             self.previous = None
 
 
